@@ -3,6 +3,7 @@ package main
 import (
 	"context"
 	"fmt"
+	"google.golang.org/protobuf/proto"
 
 	"google.golang.org/protobuf/types/known/fieldmaskpb"
 
@@ -121,6 +122,27 @@ func fanScenario(s *hx.Seq) {
 					continue
 				}
 				cur := m.FanSpeed()
+				// every second step also turns the fan around: the other RPC that writes the fan speed must leave
+				// preset, index and percentage as they are, flip the direction, and not panic
+				if step%2 == 1 {
+					var rev *traits.FanSpeed
+					var rerr error
+					if p := guard(func() {
+						rev, rerr = srv.ReverseFanSpeedDirection(ctx, &traits.ReverseFanSpeedDirectionRequest{Name: "n"})
+					}); p != nil {
+						if step == len(path)-1 {
+							s.Fail("panic reverse "+name, fmt.Sprintf("ReverseFanSpeedDirection panicked: %v", p), nil)
+						}
+						return true
+					}
+					if rerr == nil {
+						after := m.FanSpeed()
+						if step == len(path)-1 && (after.Preset != cur.Preset || after.PresetIndex != cur.PresetIndex || after.Percentage != cur.Percentage || after.Direction == cur.Direction || !proto.Equal(rev, after)) {
+							s.Fail("fan-reverse "+name, fmt.Sprintf("ReverseFanSpeedDirection turned %v into %v (returned %v)", cur, after, rev), nil)
+						}
+						cur = after
+					}
+				}
 				if why := consistent(cur, table); why != "" {
 					if step == len(path)-1 {
 						s.Fail("fan-inconsistent "+name, fmt.Sprintf("after the update (from %v) the stored fan speed is %v: %s", before, cur, why), nil)
